@@ -436,13 +436,31 @@ fn judge(prog: &Program, ev: &[Ev]) -> Result<String, Vec<String>> {
             }
         }
     }
+    // A get that went through the slow path loaded the latest value itself. If, after its LAST
+    // such load, it did not install anything itself and still returns an older value, then its
+    // `initialize()` found a value installed by another thread, of another generation than the
+    // one it expected, and `with_in_region` accepted it: the generation comparison failed. (With
+    // a working comparison the thread invalidates and loads again; a stale result after an own
+    // latest-load is then only possible when a blind store lands after the thread's OWN
+    // installation - the known init-races-set race, classified below.)
+    let classify_get = |g: &GetRec| -> &'static str {
+        if prog.kind == Kind::Cached {
+            let mine = |e: &Ev, l: &str| matches!(e, Ev::Hook { t, label, .. } if *t == g.t && *label == l);
+            if let Some(last_load) = ev[g.start..g.end].iter().rposition(|e| mine(e, "rc.latest.load")) {
+                if !ev[g.start + last_load..g.end].iter().any(|e| mine(e, "rc.init.store")) {
+                    return "accepted-other-generation-installed-by-another-thread";
+                }
+            }
+        }
+        classify(prog.kind, ev, g.region, g.end)
+    };
     // ---- OWN-WRITE: get after own set, no foreign set overlapping or following the own set
     //      before the get ended => returns the own value ----
     for g in gets.iter().filter(|g| g.t != 0) {
         let Some(own) = sets.iter().filter(|s| s.t == g.t && s.end < g.start).last() else { continue };
         let excused = sets.iter().any(|f| f.t != g.t && relevant(f, g.region) && f.end > own.start && f.start < g.end);
         if !excused && g.val != own.val {
-            let class = classify(prog.kind, ev, g.region, g.end);
+            let class = classify_get(g);
             violations.push(format!(
                 "ORACLE[{pre}own-write-lost:{class}] thread {} (region {}) set {} and, with no foreign write overlapping or following it, then read {}",
                 g.t,
@@ -460,7 +478,7 @@ fn judge(prog: &Program, ev: &[Ev]) -> Result<String, Vec<String>> {
             let (w, s) = (g.val / 16, g.val % 16);
             let m = max_seq.entry(w).or_insert(0);
             if s < *m {
-                let class = classify(prog.kind, ev, g.region, g.end);
+                let class = classify_get(g);
                 let key = if class == "init-races-set" { format!("{pre}writer-order-regression") } else { format!("{pre}writer-order-regression:{class}") };
                 violations.push(format!("ORACLE[{key}] reader thread {t} (region {}) observed {w}.{} and later {w}.{s} ({class})", g.region, *m));
                 break 'mono;
@@ -481,7 +499,7 @@ fn judge(prog: &Program, ev: &[Ev]) -> Result<String, Vec<String>> {
         qvals.insert(g.val);
         if !acceptable.contains(&g.val) && !stale_reported {
             stale_reported = true;
-            let class = classify(prog.kind, ev, g.region, g.end);
+            let class = classify_get(g);
             violations.push(format!(
                 "ORACLE[{pre}stale-after-quiescence:{class}] after all threads were joined a get in region {} returned {} but the last value written is {}",
                 g.region,
